@@ -80,6 +80,10 @@ def gen(rng, tier):
                 if num.rnd(ty, num.rnd(ty, 1.0 - tt) - ss) < 0:
                     ss = 0.0
             out.append(Case("btopp", ty, "bi", "-", [], w + [tt, ss], tag=tag))
+            if rng.chance(1, 6):
+                # the corners of the trust / distrust triangle: no referral at all, pure trust, pure distrust
+                for tt, ss in ((0.0, 0.0), (1.0, 0.0), (0.0, 1.0), (0.0, 0.5), (0.5, 0.0), (0.5, 0.5)):
+                    out.append(Case("btopp", ty, "bi", "-", [], w + [tt, ss], tag="corner"))
     return out
 
 
